@@ -124,6 +124,7 @@ func (eng *Engine) instrWrites(fc *FnCtx, in ssa.Instruction, li *loopInfo, regi
 	whole := wclass{kind: wWhole}
 	switch in := in.(type) {
 	case *ssa.Store:
+		fc.storeHookGhosts(in, ghost)
 		c := fc.classifyStore(in.Addr, li)
 		if isObjectType(in.Val.Type()) && hasNestedObjects(in.Val.Type()) && c.kind == wExact {
 			c = whole
